@@ -85,6 +85,8 @@
             pub fn success(&mut self, value: T)
                 ensures final(self).outcome() == (if old(self).outcome() is None { Some(Ok::<T, RequestError>(value)) } else { old(self).outcome() }),
             { unimplemented!() }
+            #[verifier::external_body]
+            pub fn new<F>(callback: F) -> (r: Self) ensures r.outcome() is None { unimplemented!() }
             // a fresh promise is pending
             #[verifier::external_body]
             pub fn channel(tx: crate::shims::tokio::sync::oneshot::Sender<Result<T, RequestError>>) -> (r: Self) ensures r.outcome() is None { unimplemented!() }
@@ -266,4 +268,7 @@
     }
     pub mod channel {
 //@include frag/client_channel.tpl
+    }
+    pub mod ffi_channel {
+//@include frag/client_ffi_channel.tpl
     }
